@@ -30,7 +30,7 @@ func verifResizeScript(nsteps int) {
 		model[i] = vrt.I32()
 	}
 	// regrown[i]: position i was cut off by a shrink and exposed again by a later grow without a rewrite
-	// (known finding KF-C13-regrow: the old chunk is still in the index and its value reappears).
+	// (was a defect, repaired in /repo: the old chunk stayed in the index and its value reappeared; the label stays separate).
 	regrown := make([]bool, 8)
 	high := n0 // one past the highest position ever written and not rewritten since
 	vrt.AssertNoErr(ds.Write(model), "write-ok")
@@ -87,11 +87,21 @@ func verifResizeScript(nsteps int) {
 }
 
 func VerifH_C13_api_resize1() { verifResizeScript(1) }
-func VerifH_C13_api_resize2_thorough() { verifResizeScript(2) }
+func VerifH_C13_api_resize2() { verifResizeScript(2) }
+func VerifH_C13_api_resize3_thorough() { verifResizeScript(3) }
 
 // rank 2 with mixed maximum dimensions ([Unlimited, m] / [m, Unlimited] / fixed): accept within, reject beyond; shape and values after reopen
-func VerifH_C13_api_resize_rank2() {
-	d0, d1 := 1+vrt.Choice(2), 1+vrt.Choice(2)
+func VerifH_C13_api_resize_rank2() { verifResizeRank2(1, 1, 1) }
+
+// chunks of 2x2 with extents that are not multiples of the chunk: growing into the padded part of an edge chunk
+func VerifH_C13_api_resize_rank2_edge() { verifResizeRank2(2, 2, 1) }
+
+// two steps without a rewrite in between (shrink then grow included): space cut off and exposed again reads zero
+func VerifH_C13_api_resize_rank2_two_thorough()      { verifResizeRank2(1, 1, 2) }
+func VerifH_C13_api_resize_rank2_edge_two_thorough() { verifResizeRank2(2, 2, 2) }
+
+func verifResizeRank2(c0, c1, nsteps int) {
+	d0, d1 := c0+vrt.Choice(2), c1+vrt.Choice(2)
 	var m0, m1 uint64
 	switch vrt.Choice(3) {
 	case 0:
@@ -103,36 +113,38 @@ func VerifH_C13_api_resize_rank2() {
 	}
 	fw, err := CreateForWrite("c13r2.h5", CreateTruncate)
 	vrt.AssertNoErr(err, "create-ok")
-	ds, err := fw.CreateDataset("/d", Int32, []uint64{uint64(d0), uint64(d1)}, WithChunkDims([]uint64{1, 1}), WithMaxDims([]uint64{m0, m1}))
+	ds, err := fw.CreateDataset("/d", Int32, []uint64{uint64(d0), uint64(d1)}, WithChunkDims([]uint64{uint64(c0), uint64(c1)}), WithMaxDims([]uint64{m0, m1}))
 	vrt.AssertNoErr(err, "create-dataset-ok")
 	model := make([]int32, d0*d1)
 	for i := range model {
 		model[i] = vrt.I32()
 	}
 	vrt.AssertNoErr(ds.Write(model), "write-ok")
-	n0, n1 := 1+vrt.Choice(4), 1+vrt.Choice(4)
-	err = ds.Resize([]uint64{uint64(n0), uint64(n1)})
-	within := (m0 == Unlimited || uint64(n0) <= m0) && (m1 == Unlimited || uint64(n1) <= m1)
-	if within {
-		vrt.AssertNoErr(err, "resize-within-max-accepted")
-	} else {
-		vrt.Assert(err != nil, "resize-beyond-max-rejected")
-	}
 	shape0, shape1 := d0, d1
-	if err == nil {
-		nm := make([]int32, n0*n1)
-		for i := 0; i < n0 && i < d0; i++ {
-			for j := 0; j < n1 && j < d1; j++ {
-				nm[i*n1+j] = model[i*d1+j]
-			}
+	for step := 0; step < nsteps; step++ {
+		n0, n1 := 1+vrt.Choice(4), 1+vrt.Choice(4)
+		err = ds.Resize([]uint64{uint64(n0), uint64(n1)})
+		within := (m0 == Unlimited || uint64(n0) <= m0) && (m1 == Unlimited || uint64(n1) <= m1)
+		if within {
+			vrt.AssertNoErr(err, "resize-within-max-accepted")
+		} else {
+			vrt.Assert(err != nil, "resize-beyond-max-rejected")
 		}
-		model = nm
-		shape0, shape1 = n0, n1
-		if vrt.Bool() {
-			for i := range model {
-				model[i] = vrt.I32()
+		if err == nil {
+			nm := make([]int32, n0*n1)
+			for i := 0; i < n0 && i < shape0; i++ {
+				for j := 0; j < n1 && j < shape1; j++ {
+					nm[i*n1+j] = model[i*shape1+j]
+				}
 			}
-			vrt.AssertNoErr(ds.Write(model), "rewrite-ok")
+			model = nm
+			shape0, shape1 = n0, n1
+			if step == nsteps-1 && vrt.Bool() {
+				for i := range model {
+					model[i] = vrt.I32()
+				}
+				vrt.AssertNoErr(ds.Write(model), "rewrite-ok")
+			}
 		}
 	}
 	vrt.AssertNoErr(fw.Close(), "close-ok")
